@@ -78,7 +78,7 @@ struct Sess<'a> { ls: Ls, dir: PathBuf, urls: Vec<String>, paths: Vec<Option<Pat
 impl<'a> Sess<'a> {
     fn new(dir: PathBuf, tab: &'a RefTable) -> Self {
         std::fs::create_dir_all(&dir).unwrap();
-        let p1 = dir.join("one.txt");
+        let p1 = dir.join("two");      // (a sibling whose name begins like this one: `two.md`)
         let p2 = dir.join("two.md");
         std::fs::write(&p1, "").unwrap();
         std::fs::write(&p2, "").unwrap();
